@@ -147,6 +147,32 @@ def _history_child(history):
         shutil.rmtree(wd, ignore_errors=True)
 
 
+def _alloc_rng_shard(args):
+    """hill-climb allocator on every 2-range set (first range fixed) of C05's lattice: where the search runs long enough to reach its
+    'stuck' perturbation, the result must not depend on the state of the process-wide random generator"""
+    first, items = args
+    from . import c05
+
+    core.bind_repo(need_codec=False)
+    bad = []
+    n = long_runs = 0
+    for second in items:
+        specs = (first, second)
+        base = c05.run_allocator("hill", specs)
+        if "error" in base:
+            continue
+        n += 1
+        if base.get("iters", 0) <= 52:
+            continue
+        long_runs += 1
+        for perturb in (1, 987654321):
+            r = c05.run_allocator("hill", specs, rng_perturb=perturb)
+            if r.get("addrs") != base["addrs"] or r.get("total") != base["total"]:
+                bad.append((specs, perturb, base.get("addrs"), r.get("addrs")))
+                break
+    return n, long_runs, bad
+
+
 def _shard(histories):
     core.bind_repo()
     out = []
@@ -192,6 +218,9 @@ def describe(res):
 
 
 def replay(ctx, case):
+    if case.get("alloc"):
+        n, lr, bad = _alloc_rng_shard((tuple(case["alloc"][0]), [tuple(case["alloc"][1])]))
+        return ["allocation differs: %s vs %s" % (b[2], b[3]) for b in bad]
     core.bind_repo()
     if case.get("fresh"):
         ev = tuple(case["ev"])
@@ -250,6 +279,16 @@ def run(ctx):
                 symptom = "%s@%s" % (r[1], r[2]) if r[0] == "exc" else ("different-bytes" if r[0] == "ok" else str(r[0]))
                 key = "history|%s|prev=%s/%s|last=%s/%s" % (symptom, prev[0], prev[1], h[-1][0], h[-1][1])
                 ctx.violation(key, "after %s, event %s gives %s; alone it gives %s" % (h[:-1], h[-1], describe(r), describe(ref)), dict(history=h))
+    # allocator level: the random search of the hill-climb allocator under different states of the global generator
+    from . import c05
+
+    items, _ = c05.lattice("quick")
+    for n, long_runs, bad in pmap(_alloc_rng_shard, [(it, items) for it in items]):
+        ctx.count("allocator_sets", n)
+        ctx.count("allocator_sets_with_long_search", long_runs)
+        for specs, perturb, a, b in bad:
+            ctx.violation("allocator-rng|%s" % (specs,), "hill-climb allocation of %s depends on the state of the global random generator: %s vs %s (generator perturbed with seed %s before the call)" % (
+                specs, a, b, perturb), dict(alloc=[list(x) for x in specs]))
     # fresh interpreters: hash seeds and heap layouts
     seeds = [(0, 0), (1, 0), (2, 37), (7, 0)] if quick else [(s, j) for s in range(8) for j in (0, 37)]
     fresh_events = [ev for ev in events if ev[1] == "main" and ev[2] == "ethos-u65-256"] + [(m, "convert_bytes", None) for m in ("dup_names", "branchy")] + \
